@@ -1,5 +1,10 @@
 """C15 -- xvc leaves the user's Git state alone.
 
+The model has two control flows of the automation (switch fixed_P24 of Git/Model.v): the stash sandwich of the
+pinned tree and the flow after the repair of P24 (repo-patches/83).  Which one the tree under test has is
+decided on every run (probe_flow: argv of the binary; source_flow of the translator must agree); the class
+predicate of P24 follows the switch, the formerly excluded inputs are generated for both flows.
+
 proof (Props/C15.v over Git/Model.v, Gen/GitignoreInitial.v regenerated from /repo on every run)
  + (a) Git-model validation: generated Git states x the sub-commands xvc issues, real git vs gitmodel
  + (b) xvc correspondence: generated user states x xvc commands x settings; the argv sequence seen by
@@ -14,15 +19,21 @@ from . import common as C
 
 SHIM = os.path.join(C.ROOT, "tools", "git-shim")
 KLASS_P24 = "staged-and-unstaged-same-path"
+# which control flow the tree under test has: decided on every run by probe_flow (argv sequence of the binary
+# through the git shim) and compared with what gen/gitignore_initial.py reads in the source.
+# f24 = the repair of P24 is present (no stash; `git commit` limited by pathspecs; plain checkout for --from-ref)
+FLOW = {"f24": False}
 TRUSTED = [
     "Coq 8.16.1 kernel, coqc; vm_compute in Examples / *_refuted witnesses only; no native_compute",
     "axioms: none (Print Assumptions: Closed under the global context for every theorem of Props/C15.v)",
     "extraction: ExtrOcamlBasic only; ocamlfind ocamlopt 4.13.1; coq/extract/common.ml + git_driver.ml (parsing/printing)",
     "translator gen/gitignore_initial.py (regular expressions over core/src/lib.rs and core/src/util/git.rs): initial .gitignore table, xvc dir name, `git add` pathspecs, argv literals of the git calls; each construct it cannot parse turns a boolean false and an Example of Props/C15.v fails",
-    "modelled, not verified: core/src/util/git.rs (stash_user_staged_files, unstash_user_staged_files, git_auto_commit, git_add_and_commit, git_auto_stage, git_checkout_ref, handle_git_automation) and the call pattern of lib/src/cli/mod.rs (command_matcher, dispatch_with_root) as Git/Model.v; what an xvc command writes is a parameter (delta) restricted to managed paths (.xvc/**, *.gitignore, *.xvcignore)",
-    "Git itself is an external program: M-GIT models diff --cached, stash push --staged, stash pop --index, checkout -b, checkout <ref>, add <pathspecs>, commit on trees of region-structured blobs; validated against the installed git (2.39.5) by part (a) on files whose lines are far apart (hunks = regions); merges inside one hunk, modes, symlinks, submodules, renames, sparse checkouts, hooks and user git configuration are outside the model",
+    "modelled, not verified: core/src/util/git.rs (stash_user_staged_files, unstash_user_staged_files, git_auto_commit, git_add_and_commit, git_auto_stage, git_checkout_ref, handle_git_automation) and the call pattern of lib/src/cli/mod.rs (command_matcher, dispatch_with_root) as Git/Model.v, with both control flows: the stash sandwich and the flow after the repair of P24 (git_auto_commit_only, git_checkout_ref_plain); what an xvc command writes is a parameter (delta) restricted to managed paths (.xvc/**, *.gitignore, *.xvcignore)",
+    "switch fixed_P24 of the model: decided on every run by a probe run of the binary under test (argv sequence of `xvc file track` with a staged user file, recorded by tools/git-shim: stash push/pop and a bare `commit -m` = sandwich; no stash call and `commit -m <msg> -- <.xvc> *.gitignore *.xvcignore` = repaired; anything else is a correspondence failure) and compared with the flow gen/gitignore_initial.py source_flow() reads in core/src/util/git.rs (a half-applied repair is `mixed` = correspondence failure); every scenario's argv sequence and final state are then compared with the model under exactly this switch",
+    "Git itself is an external program: M-GIT models diff --cached, stash push --staged, stash pop --index, checkout -b, checkout <ref>, add <pathspecs>, commit, commit -- <pathspecs> (commit --only) on trees of region-structured blobs; validated against the installed git (2.39.5) by part (a) on files whose lines are far apart (hunks = regions); merges inside one hunk, modes, symlinks, submodules, renames, sparse checkouts, hooks, a merge in progress and user git configuration are outside the model",
     "verdict of the Git-model validation: on generated states in which ignored files exist in the work tree only and the top stash entry has the shape of `git stash push --staged` or of a plain `git stash` of unstaged changes (everything xvc's automation can pop); other states (tracked ignored files, mixed stash entries) are explored and disagreements recorded in the evidence without verdict; after a conflicted or half-applied `stash pop` (model outcome Dirty) only exit codes are compared",
-    "correspondence machinery: tools/git-shim (logs argv + exit status, delegates), vlib/c15.py (materialiser through git fast-import / update-index, snapshot through ls-files / ls-tree / for-each-ref / stash list, canonicaliser, oracle)",
+    "correspondence machinery: tools/git-shim (logs argv + exit status, delegates), vlib/c15.py (materialiser through git fast-import / update-index, snapshot through ls-files / ls-tree / for-each-ref / stash list, canonicaliser, oracle; the work-tree writes of a command handed to the model are inferred from the work tree before/after, minus what `git stash push --staged` reverted)",
+    "oracle readings of the property text: a staged edit of a managed file (ignore file, file below .xvc/) may end up committed by xvc as it is in the work tree instead of staged (the property lets xvc commit these files), never lost; `read-only commands create no commit` is judged on states whose managed files have no pending work-tree change (hypothesis managed_clean of readonly_commands_commit_nothing)",
     "environment assumptions: the root .gitignore keeps the patterns written by xvc init and user ignore patterns do not cover managed paths; no concurrent git process; ideal blob identity (a blob is its content)",
 ]
 
@@ -459,7 +470,7 @@ def snapshot(repo, ids, codec, wt_mode):
 # =================================================================================================
 A_PATHS = [("a.txt", 2), ("d/b.txt", 1), ("c.txt", 1), (".xvc/ec/1", 1), (".xvc/store/s.json", 1), (".xvc/tmp/t", 1),
            (".xvc/config.toml", 1), ("d/.gitignore", 1), (".xvcignore", 1), (".gitignore", 1)]
-A_OPS = ["diff", "push", "pop", "addv", "commit", "cob:nb", "cob:other", "con:other", "con:t1", "con:nosuch", "coi"]
+A_OPS = ["diff", "push", "pop", "addv", "commit", "commitp", "commitp", "cob:nb", "cob:other", "con:other", "con:t1", "con:nosuch", "coi"]
 
 
 def rnd_blob(rng, n):
@@ -543,9 +554,13 @@ def gen_git_state(rng, broad=False):
 def gen_git_case(rng, broad=False):
     st = gen_git_state(rng, broad)
     r = rng.random()
-    if r < 0.2:
+    if r < 0.15:
         ops = ["diff", "push", "addv", "commit", "pop"]          # the sandwich, all steps whatever the results
     elif r < 0.3:
+        ops = ["addv", "commitp"]                                # the repaired flow (P24): add, commit limited by pathspecs
+    elif r < 0.35:
+        ops = rng.choice([["cob:nb", "addv", "commitp"], ["con:t1", "addv", "commitp"], ["commitp", "addv", "commitp"]])
+    elif r < 0.42:
         ops = ["push", "pop"]
     else:
         op = rng.choice(A_OPS)
@@ -597,6 +612,8 @@ def real_git_op(repo, op, ids):
         return "%d/%s" % (min(rc, 1), ",".join(ps))
     elif f[0] == "commit":
         rc, out, err = repo.git("commit", "-q", "-m", "m")
+    elif f[0] == "commitp":
+        rc, out, err = repo.git("commit", "-q", "-m", "m", "--", os.path.join(repo.root, ".xvc"), "*.gitignore", "*.xvcignore")
     else:
         raise ValueError(op)
     return str(min(rc, 1))
@@ -644,14 +661,19 @@ def run_git_case(case, gitmodel, codec):
 # (b) + (c) xvc scenarios
 # =================================================================================================
 FEATURES = ["staged_new", "staged_mod", "staged_del", "unstaged_edit", "untracked", "stash_entry", "detached",
-            "staged_unstaged", "staged_gitignore", "staged_data_gitignore"]
+            "staged_unstaged", "staged_gitignore", "staged_data_gitignore",
+            # a staged hunk and an unstaged hunk on one MANAGED path: an ignore file, a file below .xvc/
+            "staged_unstaged_gitignore", "staged_unstaged_xvc"]
 COMMANDS = ["track", "list", "step", "checkignore", "root", "recheck"]
 # `xvc init` in a Git repository that has no .xvc yet is run as well, judged by the oracle only: init builds
 # its own configuration, so `-c git.command=<shim>` does not reach its Git calls and no argv can be compared
 INIT = "init"
 READONLY = {"list", "checkignore", "root"}
-SETTINGS = ["default", "auto_stage", "nogit", "skipgit", "tobranch", "nogit_stage"]
-USER_FILES = {"src/a.txt": (1, 1), "notes.txt": (1,), "docs/u.txt": (1,), "del.txt": (1,), "p24.txt": (1, 1), "sub/.gitignore": (1,)}
+SETTINGS = ["default", "auto_stage", "nogit", "skipgit", "tobranch", "nogit_stage", "fromref"]
+USER_FILES = {"src/a.txt": (1, 1), "notes.txt": (1,), "docs/u.txt": (1,), "del.txt": (1,), "p24.txt": (1, 1), "sub/.gitignore": (1,),
+              "sub2/.gitignore": (1, 1)}
+# a file of the user's below .xvc/ that Git does not ignore (!.xvc/store/) and xvc does not read
+XVC_USER_FILE = ".xvc/store/verif-notes/n.txt"
 
 
 class TemplateError(Exception):
@@ -673,7 +695,8 @@ def make_template(xvc_bin):
         raise TemplateError("`xvc file track` fails in a fresh repository: %s %s" % (out[-300:], err[-300:]))
     for p, v in USER_FILES.items():
         t.write(p, enc_blob(v, "", p))
-    t.git("add", *sorted(USER_FILES), check=True)
+    t.write(XVC_USER_FILE, enc_blob((1, 1), "", XVC_USER_FILE))
+    t.git("add", XVC_USER_FILE, *sorted(USER_FILES), check=True)
     t.git("commit", "-q", "-m", "user files", check=True)
     t.git("tag", "v1", check=True)
     t.git("branch", "other", "HEAD~1", check=True)
@@ -722,6 +745,14 @@ def apply_features(repo, feats):
     if "staged_gitignore" in fs:
         repo.write("sub/.gitignore", enc_blob((6,), "", "sub/.gitignore"))
         repo.git("add", "sub/.gitignore", check=True)
+    if "staged_unstaged_gitignore" in fs:
+        repo.write("sub2/.gitignore", enc_blob((2, 1), "", "sub2/.gitignore"))
+        repo.git("add", "sub2/.gitignore", check=True)
+        repo.write("sub2/.gitignore", enc_blob((2, 3), "", "sub2/.gitignore"))
+    if "staged_unstaged_xvc" in fs and os.path.exists(os.path.join(repo.root, XVC_USER_FILE)):
+        repo.write(XVC_USER_FILE, enc_blob((2, 1), "", XVC_USER_FILE))
+        repo.git("add", XVC_USER_FILE, check=True)
+        repo.write(XVC_USER_FILE, enc_blob((2, 3), "", XVC_USER_FILE))
     if "staged_data_gitignore" in fs and os.path.exists(os.path.join(repo.root, "data", ".gitignore")):
         with open(os.path.join(repo.root, "data", ".gitignore"), "ab") as fh:
             fh.write(b"# a line of the user's\n*.tmp\n")
@@ -741,6 +772,8 @@ def xvc_args(cmd, setting):
         g += ["--skip-git"]
     elif setting == "tobranch":
         g += ["--to-branch", "feat"]
+    elif setting == "fromref":
+        g += ["--from-ref", "v1"]       # the tag on the commit HEAD is at: the switch asked for detaches HEAD, every tree stays
     c = {"track": ["file", "track", "data/n.bin"], "list": ["file", "list"],
          "step": ["pipeline", "step", "new", "-s", "s1", "-c", "echo hi"],
          "checkignore": ["check-ignore", "data/t.bin", "notes.txt"], "root": ["root"],
@@ -749,9 +782,10 @@ def xvc_args(cmd, setting):
 
 
 def setting_flags(setting):
-    """use_git, auto_commit, auto_stage, skip_git, to_branch"""
-    return {"default": (1, 1, 0, 0, "-"), "auto_stage": (1, 0, 1, 0, "-"), "nogit": (0, 1, 0, 0, "-"), "nogit_stage": (0, 0, 1, 0, "-"),
-            "skipgit": (1, 1, 0, 1, "-"), "tobranch": (1, 1, 0, 0, "feat")}[setting]
+    """use_git, auto_commit, auto_stage, skip_git, to_branch, from_ref"""
+    return {"default": (1, 1, 0, 0, "-", "-"), "auto_stage": (1, 0, 1, 0, "-", "-"), "nogit": (0, 1, 0, 0, "-", "-"),
+            "nogit_stage": (0, 0, 1, 0, "-", "-"), "skipgit": (1, 1, 0, 1, "-", "-"), "tobranch": (1, 1, 0, 0, "feat", "-"),
+            "fromref": (1, 1, 0, 0, "-", "n:v1")}[setting]
 
 
 MUTATING = {("stash", "push"), ("stash", "pop"), ("checkout",), ("add",), ("commit",)}
@@ -790,6 +824,12 @@ def parse_shim_log(path, root):
                 unknown.append(a)
         elif a[:2] == ["commit", "-m"] and len(a) == 3:
             toks.append("commit")
+        elif a[:2] == ["commit", "-m"] and len(a) > 3:
+            # the repaired flow: the commit is limited to the pathspecs of the add
+            if a[3:] == ["--", os.path.join(root, ".xvc"), "*.gitignore", "*.xvcignore"]:
+                toks.append("commitp")
+            else:
+                unknown.append(a)
         elif a and a[0] in READ_ONLY_GIT:
             pass
         else:
@@ -826,10 +866,13 @@ def observe(repo):
             meta, p = e.split("\t", 1)
             o["index"][p] = meta
     o["files"] = {}
+    o["wt_blobs"] = {}                  # git blob ids of the managed work-tree files (what a commit of them would hold)
     for p in walk_files(repo.root):
+        d = repo.read(p)
         if not p.startswith(".xvc/"):
-            d = repo.read(p)
             o["files"][p] = hashlib.sha256(d).hexdigest() if d is not None else None
+        if is_managed(p) and d is not None and not os.path.islink(os.path.join(repo.root, p)):
+            o["wt_blobs"][p] = blob_sha(d)
     return o
 
 
@@ -846,6 +889,23 @@ def status_unmanaged(lines):
 def oracle(repo, before, after, cmd, setting, xvc_touched):
     """the property text, clause by clause -> list of violations (strings)"""
     bad = []
+    commits_setting = setting in ("default", "tobranch", "fromref")
+
+    def committed_as_is(p):
+        """the managed file p, staged by the user before the run, is no longer staged because xvc committed it
+        (the property lets xvc commit ignore files and files below .xvc/): HEAD moved, the work-tree file is
+        what it was, and HEAD holds exactly that file"""
+        if not commits_setting or after["head"] == before["head"]:
+            return False
+        w0, w1 = before["wt_blobs"].get(p), after["wt_blobs"].get(p)
+        if w0 is None or w0 != w1:
+            return False
+        rc1, h, _ = repo.git("rev-parse", "-q", "--verify", "HEAD:" + p)
+        return rc1 == 0 and h.strip() == w1
+    # the clause on read-only commands presupposes that the managed files are committed/staged as they are in
+    # the work tree (hypothesis managed_clean of readonly_commands_commit_nothing): pending edits of ignore
+    # files and of files below .xvc/ are xvc's to commit after any command
+    managed_clean_before = not any(is_managed(p) for p in before["unstaged_names"] + before["untracked"])
     # user's staged changes stay staged; unstaged and untracked stay as they were (paths xvc does not manage)
     if status_unmanaged(before["status"]) != status_unmanaged(after["status"]):
         b, a = set(status_unmanaged(before["status"])), set(status_unmanaged(after["status"]))
@@ -855,12 +915,12 @@ def oracle(repo, before, after, cmd, setting, xvc_touched):
         # unless xvc is configured to stage/commit that very file because it wrote to it
         if not is_managed(p):
             bad.append("staged change of %s is no longer staged" % p)
-        elif p not in xvc_touched and setting not in ("auto_stage",):
-            bad.append("staged change of %s (managed, not written by the command) is no longer staged" % p)
+        elif p not in xvc_touched and setting not in ("auto_stage",) and not committed_as_is(p):
+            bad.append("staged change of %s (managed, not written by the command) is no longer staged and was not committed" % p)
     for p in sorted(set(after["cached_names"]) - set(before["cached_names"])):
         if not is_managed(p):
             bad.append("%s became staged" % p)
-        elif setting in ("default", "tobranch", "nogit", "skipgit", "nogit_stage"):
+        elif setting in ("default", "tobranch", "fromref", "nogit", "skipgit", "nogit_stage"):
             bad.append("managed file %s left staged although %s" % (p, "Git use is off" if setting == "nogit_stage" else "auto_stage is off"))
     for p in before["index"]:
         if not is_managed(p) and before["index"][p] != after["index"].get(p):
@@ -883,6 +943,11 @@ def oracle(repo, before, after, cmd, setting, xvc_touched):
         # not a matter of this property; anything else is
         if after["branch"] not in ("refs/heads/feat", before["branch"]):
             bad.append("--to-branch feat ended on %s (was on %s)" % (after["branch"], before["branch"]))
+    elif setting == "fromref":
+        # the switch was asked for: `--from-ref v1` (a tag on the commit HEAD is at) detaches HEAD; when the
+        # checkout was refused or the stash dance gave up, still being where we were is not a matter of this clause
+        if after["branch"] not in (None, before["branch"]):
+            bad.append("--from-ref v1 ended on %s (was on %s)" % (after["branch"], before["branch"]))
     elif before["branch"] != after["branch"]:
         bad.append("current branch changed: %s -> %s" % (before["branch"], after["branch"]))
     # all other refs
@@ -908,7 +973,7 @@ def oracle(repo, before, after, cmd, setting, xvc_touched):
             for p in (x.strip("\n") for x in out.split("\0")):
                 if p and not is_managed(p):
                     bad.append("commit %s made by xvc contains user file %s" % (c[:8], p))
-    if new and (cmd in READONLY or setting in ("nogit", "skipgit", "auto_stage", "nogit_stage")):
+    if new and ((cmd in READONLY and managed_clean_before) or setting in ("nogit", "skipgit", "auto_stage", "nogit_stage")):
         bad.append("%d commit(s) created by %s" % (len(new), "a read-only command" if cmd in READONLY else "a run with " + setting))
     return bad, len(new)
 
@@ -927,17 +992,21 @@ def sc_key(sc):
     return (tuple(sc["features"]), sc["command"], sc["setting"])
 
 
-def known_class_real(before, xvc_touched):
+def known_class_real(before, xvc_touched, f24=False):
     """P24 class on the real before-state: a path with a staged change that also has an unstaged
-    change or is written by the command"""
+    change or is written by the command.  The class follows the switch: with the repair of P24 in the tree
+    under test it is empty (nothing is suppressed)"""
+    if f24:
+        return False
     st = set(before["cached_names"])
     return bool(st & (set(before["unstaged_names"]) | set(xvc_touched)))
 
 
 # ---- one scenario ----------------------------------------------------------------------------------
-def run_scenario(sc, xvc_bin, template, gitmodel, fixed=1):
+def run_scenario(sc, xvc_bin, template, gitmodel, fixed=1, f24=None):
     """sc: {'features': [...], 'command': c, 'setting': s}.  -> result dict.  template: (with xvc, plain)"""
     repo = Repo("c15b")
+    f24 = FLOW["f24"] if f24 is None else f24
     res = {"sc": sc, "oracle": [], "corr": [], "known": False}
     try:
         shutil.rmtree(repo.root)
@@ -965,11 +1034,19 @@ def run_scenario(sc, xvc_bin, template, gitmodel, fixed=1):
         head0 = next((t for i, par, t in st0["log"] if i == (st0["branches"].get(st0["head"][1]) if st0["head"][0] == "b" else st0["head"][1])), {})
 
         def git_reverted(p):
-            return (p in before["cached_names"] and st1 != "DIRTY" and st1["wt"].get(p) == head0.get(p))
+            if p not in before["cached_names"] or st1 == "DIRTY":
+                return False
+            h, i, w, w1 = head0.get(p), st0["index"].get(p), st0["wt"].get(p), st1["wt"].get(p)
+            if w1 == h:
+                return True
+            # a staged hunk reverted beside an unstaged hunk that stayed (region-wise reverse patch of the stash)
+            if None not in (h, i, w, w1) and len(h) == len(i) == len(w) == len(w1):
+                return all((w1[k] == w[k]) if h[k] == i[k] else (w[k] == i[k] and w1[k] == h[k]) for k in range(len(h)))
+            return False
         touched = sorted(p for p in set(before["files"]) | set(after["files"])
                          if is_managed(p) and before["files"].get(p) != after["files"].get(p) and not git_reverted(p))
         xt = sorted(set(touched) | set(p for p in (st1["wt"] if st1 != "DIRTY" else {}) if p.startswith(".xvc/") and p not in st0["wt"]))
-        res["known"] = known_class_real(before, xt)
+        res["known"] = known_class_real(before, xt, f24)
         ob, ncommits = oracle(repo, before, after, sc["command"], sc["setting"], xt)
         res["oracle"] = ob
         res["ncommits"] = ncommits
@@ -988,8 +1065,8 @@ def run_scenario(sc, xvc_bin, template, gitmodel, fixed=1):
         for p in sorted(set(st0["wt"]) | set(st1["wt"])):
             if is_managed(p) and st0["wt"].get(p) != st1["wt"].get(p) and not git_reverted(p):
                 delta.append("%s>%s" % (p, ".".join(str(x) for x in st1["wt"][p]) if p in st1["wt"] else "-"))
-        ug, ac, ast, sk, tb = setting_flags(sc["setting"])
-        op = "disp!%d!%d!%d!%d!%s!-!%d!other!1!%s!" % (ug, ac, ast, sk, tb, fixed, "+".join(delta))
+        ug, ac, ast, sk, tb, fr = setting_flags(sc["setting"])
+        op = "disp!%d!%d!%d!%d!%s!%s!%d!%d!other!1!%s!" % (ug, ac, ast, sk, tb, fr, fixed, 1 if f24 else 0, "+".join(delta))
         rcm, outl = C.run_lines(gitmodel, [state_line(st0, [op])], timeout=60)
         mres, mst = parse_model_out(outl[0] if outl else "ERROR")
         if mres is None:
@@ -1039,11 +1116,11 @@ def pick_scenarios(rng, tier):
     for s in al:
         k = (tuple(s["features"]), s["command"], s["setting"])
         if len(s["features"]) <= 1 and (s["setting"] == "default" or (s["command"] in ("track", "list") and s["setting"] in ("auto_stage", "tobranch"))
-                                        or (s["command"] == "track" and s["setting"] in ("nogit", "skipgit", "nogit_stage"))):
+                                        or (s["command"] == "track" and s["setting"] in ("nogit", "skipgit", "nogit_stage", "fromref"))):
             must.append(s); seen.add(k)
     rest = [s for s in al if (tuple(s["features"]), s["command"], s["setting"]) not in seen]
     rng.shuffle(rest)
-    return must + rest[:90]
+    return must + rest[:80]
 
 
 # =================================================================================================
@@ -1070,9 +1147,28 @@ def install_findings_fallback():
 
 
 def regenerate():
+    """-> (translator notes, control flow read in the source)"""
     spec = importlib.util.spec_from_file_location("gitignore_initial", os.path.join(C.ROOT, "gen", "gitignore_initial.py"))
     m = importlib.util.module_from_spec(spec); spec.loader.exec_module(m)
-    return m.main(C.REPO, C.ROOT)
+    return m.main(C.REPO, C.ROOT), m.source_flow(C.REPO)
+
+
+PROBE_SC = {"features": ["staged_new"], "command": "track", "setting": "default"}
+
+
+def probe_flow(xvc_bin, template, gitmodel, guess):
+    """which control flow the binary under test has, from the argv sequence of one run with a staged user
+    file: -> ('sandwich' | 'repaired' | 'inconclusive: ...', tokens).  Tried twice before 'inconclusive'."""
+    toks = []
+    for _ in range(2):
+        r = _safe_sc(PROBE_SC, xvc_bin, template, gitmodel, f24=guess)
+        toks = r.get("trace") or []
+        stash = any(t in ("diff", "push", "pop") for t in toks)
+        if "push" in toks and "pop" in toks and "commit" in toks and "commitp" not in toks:
+            return "sandwich", toks
+        if "commitp" in toks and not stash and "commit" not in toks:
+            return "repaired", toks
+    return "inconclusive: argv sequence %s" % ",".join(toks), toks
 
 
 def shrink_scenario(sc, fails):
@@ -1090,8 +1186,9 @@ def run(chk, replay=None):
                         "no other process touches the repository while xvc runs",
                         "data/ holds the files xvc tracks in the scenarios (ignored by Git through data/.gitignore): they are C16's subject and are left out of the user-file comparison",
                         "git version: " + C.sh("git --version")[1].strip()]
-    notes = regenerate()
+    notes, src_flow = regenerate()
     chk.cov["translator_notes"] = notes
+    chk.cov["source_flow"] = src_flow
     chk.proof()
     gitmodel = C.ensure_model("Git", ["Base", "Git", "Gen"])
     xvc_bin = C.ensure_xvc()
@@ -1120,6 +1217,18 @@ def run(chk, replay=None):
     t0 = time.time()
     with ThreadPoolExecutor(threads) as ex:
         ares = list(ex.map(lambda c: _safe(run_git_case, c, gitmodel, codec_a), acases))
+    # trouble of the machinery itself (e.g. the model binary being re-linked by a concurrent run of this check: exec
+    # fails with EACCES for a moment) is not a verdict on the case: such cases are run again, one by one, after the
+    # pool has drained; what still cannot run is reported
+    transient = 0
+    for k, (c, (err, det)) in enumerate(zip(acases, ares)):
+        if err and (det or {}).get("harness"):
+            for _ in range(3):
+                time.sleep(2)
+                ares[k] = _safe(run_git_case, c, gitmodel, codec_a)
+                if not (ares[k][0] and (ares[k][1] or {}).get("harness")):
+                    transient += 1
+                    break
     abad, aexp = [], []
     for c, (err, det) in zip(acases, ares):
         key = ("a", json.dumps({k: v for k, v in c.items() if k != "broad"}, sort_keys=True))
@@ -1132,6 +1241,7 @@ def run(chk, replay=None):
             (aexp if c.get("broad") else abad).append((c, err, det))
     chk.cov["git_model_validation"] = {"cases": len(acases), "broad_cases": sum(1 for c in acases if c.get("broad")),
                                        "disagreements": len(abad), "exploratory_disagreements": len(aexp),
+                                       "harness_errors_gone_on_rerun": transient,
                                        "wall_s": round(time.time() - t0, 1)}
     for k, (c, err, det) in enumerate(aexp[:5]):
         pth = chk.write_replay("explore%d" % k, {"kind": "exploratory-git-model-disagreement", "what": err, "input": c, "details": det})
@@ -1159,9 +1269,31 @@ def run(chk, replay=None):
             chk.fail("correspondence", str(e), {"theorem_or_correspondence": "dispatch vs xvc: template repository (git init; xvc init; xvc file track)"},
                      name="template", has_input=False)
             template, scs = None, []
+        # ---- which control flow does the tree under test have?  (switch fixed_P24 of the model)
+        if template:
+            seen, ptoks = probe_flow(xvc_bin, template, gitmodel, src_flow["flow"] == "repaired")
+            chk.cov["probe_flow"] = {"binary": seen, "argv": ptoks, "source": src_flow["flow"]}
+            if seen.startswith("inconclusive") or src_flow["flow"] != seen:
+                chk.fail("correspondence", "control flow of the Git automation: the binary shows %s, core/src/util/git.rs reads as %s (%s): "
+                         "the model has the stash sandwich and the flow of the repair of P24, nothing in between"
+                         % (seen, src_flow["flow"], ", ".join("%s=%s" % kv for kv in sorted(src_flow.items()) if kv[0] != "flow")),
+                         {"theorem_or_correspondence": "switch fixed_P24: probe of the binary through tools/git-shim vs gen/gitignore_initial.py source_flow",
+                          "probe_scenario": PROBE_SC, "argv": ptoks, "source_flow": src_flow}, name="flow", has_input=False)
+            FLOW["f24"] = (seen == "repaired") if not seen.startswith("inconclusive") else (src_flow["flow"] == "repaired")
+            chk.cov["switches"] = {"fixed_P20": True, "fixed_P24": FLOW["f24"]}
+            chk.cov["claimed_for_this_tree"] = (
+                ["C15_full_fixed", "known_class_empty_when_fixed", "fixed_flow_leaves_work_tree_and_stash_alone",
+                 "from_ref_fixed_refused_changes_nothing", "checkout_carries_local_changes", "C15_full_holds_when_fixed"] if FLOW["f24"] else
+                ["automation_preserves_user_view outside Known_class (P24 open)", "staged_and_unstaged_refuted"]) + [
+                "readonly_commands_commit_nothing", "branch_switch_only_on_request", "automation_off_touches_nothing", "user_view_is_pointwise"]
+            C.log("C15: control flow of the tree under test: %s (fixed_P24 = %s)" % (seen, FLOW["f24"]))
         try:
             with ThreadPoolExecutor(threads) as ex:
                 results = list(ex.map(lambda s: _safe_sc(s, xvc_bin, template, gitmodel), scs))
+            for k, r in enumerate(results):
+                if any(m.startswith("harness error") for m in r["corr"]):
+                    time.sleep(2)
+                    results[k] = _safe_sc(r["sc"], xvc_bin, template, gitmodel)
             memo, memo_lock = {}, threading.Lock()
             for r in results:
                 memo[sc_key(r["sc"])] = r
@@ -1232,7 +1364,7 @@ def run(chk, replay=None):
     for r in results[:3]:
         chk.sample({"scenario": r["sc"], "trace": r.get("trace"), "model": r.get("model")})
     chk.cov["rule"] = ("(a) one case = a generated Git state (0-3 commits, branches/tag/detached/unborn HEAD, index and work tree mutated from HEAD, 0-2 stash entries) x one sub-command "
-                       "or the stash/add/commit/pop sandwich; non-trivial = the index differs from HEAD or the stash is not empty.  (b) one case = user-state feature subset (<=3 of 10: staged new file / modification / deletion, unstaged edit, untracked file, older stash entry, detached HEAD, staged+unstaged hunks on one path, staged edit of a .gitignore xvc does not write, staged edit of the .gitignore xvc appends to) x xvc command (file track, file list, pipeline step new, check-ignore, root, file recheck; init in a plain Git repository, oracle only) x setting (default, auto_stage, use_git=false, use_git=false with auto_stage, --skip-git, --to-branch); "
+                       "or the stash/add/commit/pop sandwich or the add/commit-with-pathspecs sequence of the repaired flow (also after checkout -b / checkout <tag>); non-trivial = the index differs from HEAD or the stash is not empty.  (b) one case = user-state feature subset (<=3 of 12: staged new file / modification / deletion, unstaged edit, untracked file, older stash entry, detached HEAD, staged+unstaged hunks on one path -- on a user file, on an ignore file, on a file below .xvc/ --, staged edit of a .gitignore xvc does not write, staged edit of the .gitignore xvc appends to) x xvc command (file track, file list, pipeline step new, check-ignore, root, file recheck; init in a plain Git repository, oracle only) x setting (default, auto_stage, use_git=false, use_git=false with auto_stage, --skip-git, --to-branch, --from-ref <tag on the current commit>); the class of P24 suppresses nothing when the probed flow is the repaired one; "
                        "non-trivial = something is staged before the run and Git automation is on.  distinct by input.")
     chk.cov["distribution"] = dist
     chk.cov["exhaustive"] = False
@@ -1245,18 +1377,19 @@ def _safe(f, c, *a, retry=True):
     except Exception as e:                                   # harness trouble is a disagreement to look at, never silence
         if retry:
             return _safe(f, c, *a, retry=False)
-        return "harness error: %r" % (e,), {"harness": True}
+        import traceback
+        return "harness error: %r" % (e,), {"harness": True, "traceback": traceback.format_exc()[-500:]}
 
 
-def _safe_sc(sc, xvc_bin, template, gitmodel, retry=True):
+def _safe_sc(sc, xvc_bin, template, gitmodel, retry=True, f24=None):
     try:
-        r = run_scenario(sc, xvc_bin, template, gitmodel)
+        r = run_scenario(sc, xvc_bin, template, gitmodel, f24=f24)
         if r.get("timeout") and retry:
-            return _safe_sc(sc, xvc_bin, template, gitmodel, retry=False)
+            return _safe_sc(sc, xvc_bin, template, gitmodel, retry=False, f24=f24)
         return r
     except Exception as e:
         if retry:
-            return _safe_sc(sc, xvc_bin, template, gitmodel, retry=False)
+            return _safe_sc(sc, xvc_bin, template, gitmodel, retry=False, f24=f24)
         import traceback
         return {"sc": sc, "oracle": [], "corr": ["harness error: %r %s" % (e, traceback.format_exc()[-300:])], "known": False}
 
